@@ -8,7 +8,7 @@ CHECK = dict(
          "truncate, append, prepend, substitute, swap, rotate at position classes 0/1/mid/last/last+1) x delivery (source chunking, terminal result with data, "
          "transport error vs clean EOF, lying/absent Content-Length, stall) x per-GET resume script (correct 206, 200 full body with/without Content-Range, 206 from "
          "a wrong offset with honest/lying Content-Range, 206 with wrong bytes / another blob, 206 without Content-Range, 416, 5xx/429/408/503/404/403) x retry limit "
-         "x throttle width x consumer (Read loops with generated buffer sizes incl. 0, 1, >len; io.ReadAll; io.Copy; ReadFrom; RawBody; ToOCIConfig; "
+         "x throttle width x consumer (Read loops with generated buffer sizes incl. 0, 1, >len; io.ReadAll; io.Copy and io.CopyBuffer handed the returned reader itself with plain, bytes.Buffer and *os.File destinations (WriterTo/ReaderFrom dispatch); ReadFrom; the reader's own WriteTo when offered; RawBody; ToOCIConfig; "
          "ToTarReader.RawBody / ReadFile(absent)) x up to 3 rewinds (before the first read, mid-stream, after a complete pass; later passes may serve different bytes) "
          "x reads continuing after the end. Non-trivial = a pass serves a stream that differs from the content, or a drop/resume happened, or >=2 unequal read sizes, "
          "or a rewind, or an inconsistent descriptor; distinct by (entry, mode, algo, size-known, per-pass corruption kind and position class, resume behaviours, "
